@@ -46,6 +46,8 @@ def factories():
     add('vq-ce-commit-rotation', lambda: VectorQuantize(dim=3, codebook_size=5, commitment_use_cross_entropy_loss=True, rotation_trick=False, decay=0.5), 3)
     add('vq-image', lambda: VectorQuantize(dim=3, codebook_size=5, accept_image_fmap=True, decay=0.5), 3, image=True)
     add('rvq-dropout', lambda: ResidualVQ(dim=3, num_quantizers=3, codebook_size=5, quantize_dropout=True, decay=0.5, threshold_ema_dead_code=1), 3, mask=True)
+    add('rvq-shared-learnable-inplace', lambda: ResidualVQ(dim=3, num_quantizers=2, codebook_size=5, shared_codebook=True, learnable_codebook=True, ema_update=False, in_place_codebook_optimizer=partial(SGD, lr=0.2)), 3)
+    add('rvq-learnable-inplace', lambda: ResidualVQ(dim=3, num_quantizers=2, codebook_size=5, learnable_codebook=True, ema_update=False, in_place_codebook_optimizer=partial(SGD, lr=0.2)), 3)
     add('rvq-shared-expiry', lambda: ResidualVQ(dim=3, num_quantizers=3, codebook_size=6, shared_codebook=True, decay=0.5, threshold_ema_dead_code=2), 3)
     add('rvq-kmeans', lambda: ResidualVQ(dim=3, num_quantizers=2, codebook_size=4, kmeans_init=True, kmeans_iters=2), 3)
     add('rvq-implicit', lambda: ResidualVQ(dim=3, num_quantizers=2, codebook_size=4, implicit_neural_codebook=True, mlp_kwargs=dict(dim_hidden=4, depth=1)), 3)
@@ -130,6 +132,19 @@ def correspond(ctx, scale):
             try:
                 for t in range(n_pre):
                     step(f, a, make_x(), True, rng.randrange(10 ** 6), make_mask(), opt_a)
+                    if t == n_pre - 1 and n_pre >= 1 and not f['image'] and not f.get('mkx'):
+                        # the LAST call before the checkpoint asks for the cross-entropy loss to target indices (indices=) in training mode, where the class
+                        # offers it: whatever such a call leaves pending (gradients of an in-place optimiser ...) must not be needed after a restore
+                        try:
+                            a.train(False)
+                            with torch.no_grad():
+                                probe_i = a(make_x())[1]
+                            a.train(True)
+                            if isinstance(probe_i, torch.Tensor) and probe_i.dtype in (torch.int32, torch.int64) and int(probe_i.min()) >= 0:
+                                a(make_x(), indices=probe_i)
+                                dist['indices_call_before_checkpoint'] = dist.get('indices_call_before_checkpoint', 0) + 1
+                        except (TypeError, AssertionError, RuntimeError, ValueError, IndexError):
+                            pass
             except Exception as ex:
                 failures.append({'key': f'{f["name"]}:history-exception:{type(ex).__name__}', 'what': f'{f["name"]}: {ex!r}', 'case': dict(name=f['name'])})
                 continue
